@@ -33,6 +33,12 @@ Theorem argv_shape :
 Proof. repeat split; reflexivity. Qed.
 Print Assumptions argv_shape.
 
+(* the record of a run that ended in time carries the exit status and both streams, decoded injectively (undecodable
+   bytes are kept as lone surrogates, so that different outputs remain different: F35/F41); read off the source of execute *)
+Theorem record_of_a_finished_run : fact_normal_record = true.
+Proof. reflexivity. Qed.
+Print Assumptions record_of_a_finished_run.
+
 (* non-vacuity: a configuration with a match string and a cross check *)
 Example accept_example :
   let c := mk_ccfg false false true (Some [102;111;111]%N) None true true None None false in
